@@ -1154,10 +1154,20 @@ def _child_args(item):
         return th, lambda: mutual_info.joint_counts(X, n_x=item["nx"])
     Y = X if item.get("same") else typed(item["Y"], item["dy"], item["ly"], fill=0)
     if undeclared:
-        return th, lambda: mutual_info.joint_counts(X, Y)
-    if api == "kernel":
-        return th, lambda: libinfo.matrix_bincount2d(X, Y, item["nx"], item["ny"])
-    return th, lambda: mutual_info.joint_counts(X, Y, item["nx"], item["ny"])
+        fn = lambda: mutual_info.joint_counts(X, Y)
+    elif api == "kernel":
+        fn = lambda: libinfo.matrix_bincount2d(X, Y, item["nx"], item["ny"])
+    else:
+        fn = lambda: mutual_info.joint_counts(X, Y, item["nx"], item["ny"])
+    if item.get("first_valid") and item.get("expect") == "raise":
+        bad = [(A, A.copy()) for A in ([X] if Y is X else [X, Y])]
+        for A, n_ in ((X, item["nx"]), (Y, item["ny"])):
+            A[...] = np.clip(A, 0, min(item["nx"], item["ny"]) - 1 if Y is X else n_ - 1)
+        with omp(th):
+            fn()                         # valid contents: counted (result not needed)
+        for A, keep in bad:
+            A[...] = keep                # the bad id arrives in the same objects
+    return th, fn
 
 
 def child_eval(item):
@@ -1223,6 +1233,7 @@ def invalid_item(draw):
             item.update({"Xs": [X], "Ys": [X]})
         else:
             item.update({"X": X, "Y": X})
+            item["first_valid"] = draw(st.booleans())
         return item
     T = draw(st.integers(1, 12))
     Fx, Fy = draw(st.integers(1, 3)), draw(st.integers(1, 3))
@@ -1287,6 +1298,10 @@ def invalid_item(draw):
         item.update({"X": X, "w": [1.0] * T2, "nfs": [n_x] * Fx})
     else:
         item.update({"X": X, "Y": Y})
+        if kind in ("neg", "big"):
+            # the SAME array objects were counted once while their contents were still valid (a reused chunk buffer); the
+            # bad id is written into them in place afterwards
+            item["first_valid"] = draw(st.sampled_from([False, False, True]))
     return item
 
 
@@ -1319,7 +1334,8 @@ def check_invalid_item(i, it, r):
             item=i, dx=it.get("dx"), dy=it.get("dy"), nx=it.get("nx"), ny=it.get("ny"), shape=r.get("shape"),
             X=it.get("X", it.get("Xs")), Y=it.get("Y", it.get("Ys")))
     k = _reaches_kernel_negative(it)
-    cl = ["kind=" + it["kind"], "api=" + it["api"], "raised=" + r["type"]]
+    cl = ["kind=" + it["kind"], "api=" + it["api"], "raised=" + r["type"],
+          "same_objects_counted_before_with_valid_contents=%s" % bool(it.get("first_valid"))]
     if it["kind"].startswith("neg"):
         cl.append("neg_reaches_kernel" if k else "neg_wrapped_or_numpy")
     return k, cl
